@@ -88,6 +88,15 @@ def is_byte(x):
 
 
 # --- HandshakeMsg.postWrite: msg_type(1) length(3) body ---------------------------------------------
+def hs_body_frame(result, body):
+    """every byte group of the handshake message that lies inside the body decodes like the same group of the body"""
+    from pyvc.values import fresh_name
+    a, b = z3.Int(fresh_name('ha')), z3.Int(fresh_name('hb'))
+    return VBool(z3.ForAll([a, b], z3.Implies(z3.And(4 <= a, a <= b, b <= smt.slen(result.t)),
+                                              smt.s_val(smt.s_slice(result.t, a, b)) == smt.s_val(smt.s_slice(body.t, a - 4, b - 4))),
+                           patterns=[smt.s_slice(result.t, a, b)]))
+
+
 def hs_fits(ns):
     return S.And(is_byte(ns.f(ns.self, 'handshakeType')), S.len_(ns.f(ns.w, 'bytes')) < (1 << 24))
 
@@ -99,6 +108,9 @@ contract(M + 'HandshakeMsg.postWrite',
              hs_fits(ns),
              S.seq_eq(ns.result, S.cat(S.byte(ns.f(ns.self, 'handshakeType')), S.be(n, 3), body)),
              S.len_(ns.result) == 4 + n, S.is_bytes(ns.result),
+             # consequences stated for callers: the body verbatim at offset 4, and groups inside it decode alike
+             S.forall(lambda k: at(ns.result, 4 + k) == at(body, k), 0, n),
+             hs_body_frame(ns.result, body),
              only_modifies(ns)))(ns.f(ns.w, 'bytes'), S.len_(ns.f(ns.w, 'bytes'))),
          raises={ValueError: ('iff', lambda ns: S.Not(hs_fits(ns)))},
          prop=PROP,
